@@ -394,7 +394,7 @@ def add_constraint(draw, spec, allow_dv=True):
     t = draw(st.sampled_from(CON_TYPES))
     n_ch = draw(ints(2, 3))
     n_opt = draw(ints(2, 3 if n_ch == 3 else 4))
-    placement = draw(st.sampled_from(['perm', 'hier', 'hier_rev', 'mutex', 'free', 'free']))
+    placement = draw(st.sampled_from(['perm', 'hier', 'hier_rev', 'mutex', 'free', 'free', 'pool', 'window']))
     if n_ch > n_opt and t in ('PERMUTATION', 'UNORDERED_NOREPL') and placement != 'perm':
         # unsatisfiable sizes: documented as 'the DSG is infeasible' (docs/theory.md), which agrees with the property
         # statement ('the affected branch is infeasible') only when all constrained choices are permanent
@@ -406,13 +406,25 @@ def add_constraint(draw, spec, allow_dv=True):
         ids = list(reversed(ids))
     new_choices = []
     origins = []
+    pool = [f'po{j}' for j in range(n_opt+(n_ch-1 if placement == 'window' else 0))] if placement in ('pool', 'window') \
+        else []
+    for o in pool:
+        spec['nodes'][o] = {'k': 'gen'}
     for i in range(n_ch):
         opts = []
-        for j in range(n_opt):
-            nm = f'{ids[i]}o{j}'
-            spec['nodes'][nm] = {'k': 'gen'}
-            opts.append(nm)
-        if placement == 'perm':
+        if pool:
+            # constrained choices sharing option nodes (one pool / overlapping windows), each on its own permanent node
+            opts = pool[i:i+n_opt] if placement == 'window' else list(pool)
+        else:
+            for j in range(n_opt):
+                nm = f'{ids[i]}o{j}'
+                spec['nodes'][nm] = {'k': 'gen'}
+                opts.append(nm)
+        if pool:
+            origin = f'h{i}'
+            spec['nodes'][origin] = {'k': 'gen'}
+            spec['edges'].append([spec['start'][0], origin])
+        elif placement == 'perm':
             origin = spec['start'][0]
         elif placement in ('hier', 'hier_rev'):
             origin = spec['start'][0] if i == 0 else new_choices[i-1]['opts'][draw(ints(0, n_opt-1))]
